@@ -162,7 +162,9 @@ def _error_paths(t: int, nul: int, fail: int, cfg: int, shared: bool = False) ->
 
 MESSAGES = ("boom", "", "é\"\\\n", "x" * 300)
 STAGES = ("parse", "validate", "operation-selection", "variable-coercion", "resolver-error", "non-null", "list-item", "float-nan", "float-inf", "resolver-error-ext",
-          "variable-coercion-multi", "validate-multi-node", "validate-multi-error", "subscription-operation", "mutation-without-mutation-type")
+          "variable-coercion-multi", "validate-multi-node", "validate-multi-error", "subscription-operation", "mutation-without-mutation-type",
+          # (appended) a nullable variable with a default may feed `if: Boolean!`; an explicit null for it passes validation and variable coercion and fails when the directive is evaluated
+          "directive-null-root", "directive-null-root-fragment", "directive-null-nested", "directive-null-mutation")
 
 
 def failure_schema(msg, ext, own_path=False):
@@ -176,6 +178,8 @@ def failure_schema(msg, ext, own_path=False):
         Field("o", obj), Field("l", ListType(obj)), Field("bad", Int, resolver=boom), Field("nn", NonNullType(Int)),
         Field("f", Float), Field("fs", ListType(Float)), Field("a", Int), Field("s", String),
     ])
+    if msg == "<mutation root>":
+        return Schema(q, mutation_type=q)
     return Schema(q, subscription_type=ObjectType("Subscription", [Field("tick", Int, subscription_resolver=lambda *a, **k: None)]))
 
 
@@ -205,7 +209,7 @@ def _failures(stage: int, m: int, cfg: int, ext: int, ast: bool = False, own_pat
         return result(True, False)
     with untraced():
         EXT = make_extensions(EK)
-        schema = failure_schema(MSG, EXT, OP)
+        schema = failure_schema("<mutation root>" if ST == "directive-null-mutation" else MSG, EXT, OP)
         root = {"o": {"x": 1, "nn": None}, "l": [{"x": 1, "nn": 2}, None, {"x": 3, "nn": None}], "nn": None, "a": 1, "s": "t",
                 "f": float("nan") if ST == "float-nan" else (float("inf") if ST == "float-inf" else 1.5), "fs": [1.0, float("-inf")] if ST.startswith("float") else [1.0]}
         query, variables, opname, expect_data = {
@@ -224,6 +228,10 @@ def _failures(stage: int, m: int, cfg: int, ext: int, ast: bool = False, own_pat
             "validate-multi-error": ("{ nope a { x }\n ...Missing }\nfragment Unused on Query { a }", None, None, False),
             "subscription-operation": ("subscription { tick }", None, None, None),
             "mutation-without-mutation-type": ("mutation { a }", None, None, None),
+            "directive-null-root": ("query ($v: Boolean = true) { a s @skip(if: $v) }", {"v": None}, None, None),
+            "directive-null-root-fragment": ("query ($v: Boolean = true) { a ... @include(if: $v) { s } }", {"v": None}, None, None),
+            "directive-null-nested": ("query ($v: Boolean = true) { a o { x @include(if: $v) } l { x } }", {"v": None}, None, None),
+            "directive-null-mutation": ("mutation ($v: Boolean = true) { a ...F @skip(if: $v) } fragment F on Query { s }", {"v": None}, None, None),
         }[ST]
         if ST == "subscription-operation" and known.c10_subscription_through_query_entry_point():
             return result(True, False)
